@@ -20,6 +20,17 @@ from .. import core, oracles, fixtures, values
 from ..fixtures import Call, NT, NT0, NT3, Color, IE, SE, Fl, f, factory, Period, Shift, FloatE, BytesE
 
 PROPERTY = 'C07'
+
+
+def _ntk(field):
+    """A module-level namedtuple class with one field of the given name (made once, reachable by name)."""
+    cname = 'NTK_' + field
+    if cname not in globals():
+        c = collections.namedtuple(cname, [field], rename=True)
+        c.__module__ = __name__
+        globals()[cname] = c
+    return globals()[cname]
+
 LEVEL = 'exploration'
 
 CONTENTS = [1, 'x', [2, 3], None]
@@ -144,6 +155,12 @@ def misc_values():
     yield NT(QUOTED, 1)
     yield types.SimpleNamespace(a=QUOTED)
     yield functools.partial(f, QUOTED)
+    # keyword / attribute / field names equal to the parameter names of the library's own helpers
+    for name in ('ctx', 'fn', 'args', 'kwargs', 'value', 'self', 'trailing_comment', 'doc'):
+        yield functools.partial(f, 1, **{name: 2})
+        yield types.SimpleNamespace(**{name: 1})
+        yield _ntk(name)(3)
+    yield functools.partial(f, ctx=1, fn=len, args=(1,), kwargs={'a': 1})
     for E in (ValueError, KeyError, OSError, StopIteration, Exception, ZeroDivisionError):
         yield E()
         for a in CONTENTS:
